@@ -72,6 +72,7 @@ Example::
 import functools
 import itertools
 import os.path
+import posixpath
 import urllib.parse
 import urllib.request
 import xml.dom
@@ -215,12 +216,17 @@ def getUrls(sheet):
 
 
 def _uri_values(style):
-    return (
-        value
-        for prop in style.getProperties(all=True)
-        for value in prop.propertyValue
-        if value.type == 'URI'
-    )
+    "url() values in document order, also inside functions like image-set()"
+
+    def walk(values):
+        for value in values:
+            if getattr(value, 'type', None) == 'URI':
+                yield value
+            elif isinstance(value, (css.CSSFunction, css.CSSVariable)):
+                yield from walk(item.value for item in value.seq)
+
+    for prop in style.getProperties(all=True):
+        yield from walk(prop.propertyValue)
 
 
 _flatten = itertools.chain.from_iterable
@@ -246,7 +252,10 @@ def replaceUrls(sheet, replacer, ignoreImportRules=False):
         if rule.type == rule.IMPORT_RULE and not ignoreImportRules
     )
     for rule in imports:
-        rule.href = replacer(rule.href)
+        href = replacer(rule.href)
+        if href != rule.href:
+            # (setting it loads the imported sheet again)
+            rule.href = href
 
     for value in _flatten(map(_uri_values, _style_declarations(sheet))):
         value.uri = replacer(value.uri)
@@ -280,7 +289,11 @@ class Replacer:
         self.base = self.extract_base(base)
 
     def __call__(self, uri):
-        scheme, location, path, query, fragment = urllib.parse.urlsplit(uri)
+        try:
+            scheme, location, path, query, fragment = urllib.parse.urlsplit(uri)
+        except ValueError:
+            # no URL that could be adjusted, e.g. "//[x"
+            return uri
         if scheme or location:
             # keep anything absolute
             return uri
@@ -296,16 +309,13 @@ class Replacer:
         if not path:
             # only query or fragment: refers to the sheet itself
             path = os.path.basename(urllib.parse.urlsplit(self.href).path)
-        path, filename = os.path.split(path)
-        combined = os.path.normpath(os.path.join(self.base, path, filename))
+        # (URL paths: joined and normalized as such, nothing is quoted again)
+        combined = posixpath.normpath(posixpath.join(self.base, path))
+        if path.endswith('/') or posixpath.basename(path) in ('.', '..'):
+            # still names the directory
+            combined += '/'
         # keep query and fragment
-        return urllib.parse.urlunsplit((
-            '',
-            '',
-            urllib.request.pathname2url(combined),
-            query,
-            fragment,
-        ))
+        return urllib.parse.urlunsplit(('', '', combined, query, fragment))
 
     @staticmethod
     def extract_base(uri):
